@@ -58,6 +58,7 @@ void Value::verify_sig(bool compact) {
         // new style pubkey, so use schnorr validation
         XOnlyPubKey pubkey((uint256(args[1])));
         if (!pubkey.IsFullyValid()) abort("invalid x only pubkey");
+        if (args[2].size() != 64) abort("invalid input (a Schnorr signature has 64 bytes)"); // (VerifySchnorr asserts it)
         int64 = pubkey.VerifySchnorr(sighash, args[2]);
         if (int64 == 0) {
             uint256 sh2;
